@@ -6,7 +6,7 @@ TLC: two runs on the same overload set give the same files for every choice, and
 write_function_forset is independent of the allocation order iff RemapCompareLess has no ties on
 the set) -> every dumped overload set (tie sets and tie-free controls) is rendered into generated
 libraries; each library is run several times per back-end under different allocator seeds
-(LD_PRELOAD harness/shufmalloc.c), locales, TZ, environment padding, setarch -R, a second apart;
+(LD_PRELOAD harness/shufmalloc.c), locales, TZ, shifted clocks (LD_PRELOAD harness/shifttime.c), environment padding, setarch -R, a second apart;
 sha256 of -oc / -od / -oh and of the interrogate_module output must agree (without
 SOURCE_DATE_EPOCH: agree modulo the file identifier, which must be the same number in code and
 database).  The H-sort hook trace of all python-native runs is validated against ReproTrace
@@ -16,7 +16,7 @@ from ..common import MachineryError, REPO, NCPU
 from .. import build, tlc, run, harness
 
 EPOCH = "1700000000"
-CFGS = {"quick": ["Repro_quick4", "Repro_quick"], "thorough": ["Repro_quick4", "Repro_thorough"]}
+CFGS = {"quick": ["Repro_inputs", "Repro_quick4", "Repro_quick"], "thorough": ["Repro_inputs", "Repro_quick4", "Repro_thorough"]}
 NLIB = {"quick": 12, "thorough": 48}
 MAXSETS = {"quick": 3000, "thorough": 40000}
 BACKENDS = ["-python-native", "-python", "-c"]
@@ -39,15 +39,15 @@ def hidden(tier):
     file); `via`: the working directory is entered by its real name or
     through a symbolic link; `pwd`: what $PWD says (real / link / dotdot = link/../link / garbage / unset);
     the other variables are everything a libc or Filename call of the tools may consult."""
-    h = [dict(name="plain", via="real", pwd="real", pre="none", env={"LC_ALL": "C", "TZ": "UTC"}),
+    h = [dict(name="plain", via="real", pwd="real", pre="none", env={"LC_ALL": "C", "TZ": "UTC0"}),
          dict(name="seed1", seed="1", via="link", pwd="link", pre="longer",
-              env={"LC_ALL": "C.utf8", "LC_NUMERIC": "C.utf8", "TZ": "Asia/Kolkata", "VERIF_PAD1": PAD * 4,
+              env={"LC_ALL": "C.utf8", "LC_NUMERIC": "C.utf8", "TZ": "XXX-13:30", "SHIFT_TIME": "8640000", "VERIF_PAD1": PAD * 4,
                    "TMPDIR": "/nonexistent/tmp", "OLDPWD": "/"}),
          dict(name="seed2", seed="2", setarch=True, via="real", pwd="unset", pre="shorter", unset=["OLDPWD", "HOME"],
               env={"LC_ALL": "de_DE.UTF-8", "LC_NUMERIC": "de_DE.UTF-8", "LANG": "de_DE.UTF-8",
                    "TZ": "America/St_Johns", "XDG_DATA_HOME": "/nonexistent/x"}),
          dict(name="rev", seed="rev", via="link", pwd="garbage", pre="symlink",
-              env={"LC_ALL": "POSIX", "TZ": "Pacific/Chatham", "POSIXLY_CORRECT": "1", "HOME": "/nonexistent",
+              env={"LC_ALL": "POSIX", "TZ": "<-11>11", "SHIFT_TIME": "-40000000", "POSIXLY_CORRECT": "1", "HOME": "/nonexistent",
                    "PANDA_ROOT": "/nonexistent/root", "VERIF_PAD1": PAD * 30, "VERIF_PAD2": PAD * 30}),
          dict(name="seed3", seed="3", setarch=True, via="link", pwd="dotdot", pre="readonly",
               env={"LANG": "fr_FR", "LC_NUMERIC": "POSIX", "TZ": "", "TMPDIR": ".", "CWD": "/"}),
@@ -109,6 +109,44 @@ PUBLISHED:
   bool __bool__();
   size_t get_hash() const;
   size_t __hash__();
+};
+// slots of the python-native maker declared with unexpected return types / arities (the rarely taken
+// "don't know what to do" branches); __traverse__/__getbuffer__/__releasebuffer__ with unexpected
+// parameters are left out: interrogate crashes on them (a front-end matter, not reproducibility)
+class Odd%(k)d {
+PUBLISHED:
+  Odd%(k)d();
+  float __setattr__(const std::string &name, int v);
+  double __delattr__(const std::string &name);
+  const char *__setitem__(int i, int v);
+  float __delitem__(int i);
+  int __getattr__(const std::string &name) const;
+  bool operator () ();
+  float __len__() const;
+  const char *__int__() const;
+  double __bool__() const;
+  float __hash__() const;
+  void __iter__();
+  float __next__();
+  double __repr__() const;
+  int __str__() const;
+  float __contains__(int a, int b) const;
+  void __getitem__() const;
+  float __call__(int a) const;
+  float __clear__();
+  float __cmp__(const Odd%(k)d &o) const;
+  float __ipow__(int a, int b, int c);
+  float __pow__(int a);
+};
+// the date and time of translation, wherever a compiler would substitute them
+#define BUILD%(k)d_DATE __DATE__
+#define BUILD%(k)d_TIME __TIME__
+#define BUILD%(k)d_STAMP __TIMESTAMP__
+class Dated%(k)d {
+PUBLISHED:
+  Dated%(k)d();
+  int when(const char *d = __DATE__, const char *t = __TIME__);
+  const char *stamp(const char *s = __TIMESTAMP__);
 };
 #include "ext%(k)d.h"
 namespace ns%(k)d {
@@ -277,6 +315,7 @@ def strip_ident(kind, data):
     return None, data
 
 
+ADDR = re.compile(rb"0x[0-9a-fA-F]{6,}")
 JUNK = b"/* left over from an earlier, longer output */\n" * 1400
 
 
@@ -336,8 +375,9 @@ def tool_run(tool, args, d, h, shuf, trace=None, epoch=EPOCH):
         env["PWD"] = pwd
     else:
         unset.append("PWD")
+    if h.get("seed") or "SHIFT_TIME" in env:
+        env["LD_PRELOAD"] = shuf           # shufmalloc.so and shifttime.so (each inert without its variable)
     if h.get("seed"):
-        env["LD_PRELOAD"] = shuf
         env["SHUF_SEED"] = h["seed"]
     unset = [v for v in unset if v not in env]
     exe = build.tool(tool)
@@ -421,6 +461,24 @@ def lib_job(a):
                 res["n"] += 1
                 ab.append((h["name"], r.rc, {x: sha(os.path.join(d, "abs-" + f)) for x, f in files.items()}))
             res["absruns"] = ab
+            if k == 0:
+                # options AFTER the source file: the same command line with and without POSIXLY_CORRECT
+                oargs = base + [be, "lib%d.h" % k, "-oc", "oo-" + files["oc"], "-od", "oo-" + files["od"], "-oh", "oo-" + files["oh"]]
+                oo = []
+                for h in (hid[0], dict(hid[0], name="posixly", env=dict(hid[0]["env"], POSIXLY_CORRECT="1"))):
+                    prepare(d, ["oo-" + f for f in files.values()], "none")
+                    r = tool_run("interrogate", oargs, d, h, shuf)
+                    res["n"] += 1
+                    oo.append((h["name"], r.rc, {x: sha(os.path.join(d, "oo-" + f)) for x, f in files.items()}, r.stderr[-200:]))
+                res["optorder"] = oo
+        # address-looking tokens in the outputs of the first run
+        toks = set()
+        for x, f in files.items():
+            try:
+                toks |= {t.decode() for t in ADDR.findall(open(os.path.join(d, "first-" + f), "rb").read())}
+            except OSError:
+                pass
+        res.setdefault("addr", {})[be] = sorted(toks)
         # without SOURCE_DATE_EPOCH: two runs a second apart
         ne = []
         for ri, h in enumerate((hid[1], hid[3])):
@@ -489,13 +547,16 @@ def first_difference(d, a, b, ctxlines=6):
 
 def run_check(ctx):
     build.ensure("hooked")
-    shuf = harness.ensure("shufmalloc.so", ["shufmalloc.c"], shared=True)
+    shuf = harness.ensure("shufmalloc.so", ["shufmalloc.c"], shared=True) + " " + \
+        harness.ensure("shifttime.so", ["shifttime.c"], shared=True)
     tier = ctx.tier
 
     # ---- TLC --------------------------------------------------------------------------------
     for cfg, what in (("Repro_unfixed", "without the tie-break"), ("Repro_pwd", "with a get_cwd() that trusts $PWD"),
                       ("Repro_epoch0", "with an epoch of 0 treated as unset"),
-                      ("Repro_notrunc", "with outputs overwritten in place")):
+                      ("Repro_notrunc", "with outputs overwritten in place"),
+                      ("Repro_datemacro", "with __DATE__/__TIME__ taken from the clock"),
+                      ("Repro_pointer", "with a branch that prints a pointer")):
         r0 = tlc.run("ReproMC", cfg, workers=4, timeout=600)
         ctx.add_tlc(r0)
         if r0.verdict != "invariant" or r0.violated != "OutputPure":
@@ -560,6 +621,16 @@ def run_check(ctx):
     ctx.cov["evaluations"] += n_runs_total
 
     # ---- compare ------------------------------------------------------------------------------
+    # hexadecimal constants the tool's own code templates contain (PY_VERSION_HEX tests, flags, ...)
+    allowed_hex = set()
+    for sub in ("interrogate", "interrogatedb"):
+        sd = os.path.join(REPO, "src", sub)
+        for f in os.listdir(sd):
+            if f.endswith((".cxx", ".h", ".I")):
+                allowed_hex |= {t.decode().lower() for t in ADDR.findall(open(os.path.join(sd, f), "rb").read())}
+    for k, d, _, _ in libs:
+        for f in ("lib%d.h" % k, os.path.join("inc", "ext%d.h" % k)):
+            allowed_hex |= {t.decode().lower() for t in ADDR.findall(open(os.path.join(d, f), "rb").read())}
     n_cmp = 0
     for res in results:
         k = res["k"]
@@ -630,6 +701,23 @@ def run_check(ctx):
                     ctx.violation("interrogate %s on generated library %d with SOURCE_DATE_EPOCH=%r: file identifier %r, "
                                   "expected %r" % (rr["be"], k, rr["epoch"], got, want), dict(lib=k, run=rr))
                     break
+        if res.get("optorder"):
+            n_cmp += 1
+            (na, rca, sa, ea), (nb, rcb, sb, eb) = res["optorder"]
+            if rca != 0:
+                raise MachineryError("interrogate failed with options after the source file: %s" % ea)
+            if rcb != rca or sa != sb:
+                ctx.violation("interrogate -python-native lib0.h -oc ... (options after the source file): exit status %s and "
+                              "outputs without POSIXLY_CORRECT, exit status %s with POSIXLY_CORRECT=1 (%s)" % (
+                                  rca, rcb, " ".join(eb.split())[:120]),
+                              dict(lib=k, runs=res["optorder"]), classes=["C14-posixly-correct-option-order"])
+        for be, toks in sorted(res.get("addr", {}).items()):
+            n_cmp += 1
+            strange = [t for t in toks if t.lower() not in allowed_hex]
+            if strange:
+                ctx.violation("interrogate %s on generated library %d: the outputs contain address-looking tokens that are "
+                              "neither in the input nor in the tool's own templates: %s" % (be, k, strange[:5]),
+                              dict(lib=k, backend=be, tokens=strange[:20]))
         if res.get("absruns"):
             n_cmp += 1
             if any(rc != 0 or None in sh.values() for _, rc, sh in res["absruns"]):
